@@ -360,8 +360,8 @@ func (fx *FX) frameObligations(entry *State, x exitPoint) {
 	sort.Strings(keys)
 	alloc0 := fx.comp(entry, "$alloc", SInt)
 	for _, k := range keys {
-		if allowed[k] {
-			continue
+		if allowed[k] || strings.HasPrefix(k, "IT:") {
+			continue // IT: hidden string-range iterators are locals of the function
 		}
 		e0 := fx.comp(entry, k, fx.compSorts[k])
 		e1 := fx.comp(x.st, k, fx.compSorts[k])
